@@ -32,6 +32,7 @@ structure Quirks where
   getexNoOptPersists : Bool    -- D60 GETEX without an option removes the deadline
   bitposPartialEnd : Bool      -- D62 BITPOS with a BIT range ending inside a byte looks past the end
   bitopEmptyCreates : Bool     -- D61 BITOP whose result is empty stores an empty string
+  lcsRunes : Bool              -- D68 LCS compares UTF-8 runes (invalid bytes all equal U+FFFD), not bytes
   deriving Repr, DecidableEq
 
 def Quirks.none : Quirks :=
@@ -42,7 +43,7 @@ def Quirks.none : Quirks :=
     helloAnyVersion := false, resp2Scalars := false, dirtyIncomplete := false,
     bitcountClamp := false, bitcountEmptyCrash := false, bfSignedOverflow64 := false,
     bfSetOverflowUsesSum := false, unlinkKeepsObject := false,
-    getexNoOptPersists := false, bitposPartialEnd := false, bitopEmptyCreates := false }
+    getexNoOptPersists := false, bitposPartialEnd := false, bitopEmptyCreates := false, lcsRunes := false }
 
 inductive Val where
   | str (b : Bytes)
